@@ -158,6 +158,9 @@ func init() {
 		sn := &models.Snssai{Sst: 1, Sd: "010203"}
 		list := []nm{
 			{"RegistrationComplete", nasTestpacket.GetRegistrationComplete(nil)},
+			// header-only downlink messages written from TS 24.501 table 8.2.13.1.1 / 8.2.19.1.1
+			{"DeregistrationAcceptUEOriginating", []byte{0x7e, 0x00, 0x46}},
+			{"ConfigurationUpdateCommandBare", []byte{0x7e, 0x00, 0x54}},
 			{"SecurityModeComplete", nasTestpacket.GetSecurityModeComplete(nil)},
 			{"UlNasTransport_PduSessionEstablishmentRequest", nasTestpacket.GetUlNasTransport_PduSessionEstablishmentRequest(5, nasMessage.ULNASTransportRequestTypeInitialRequest, "internet", sn)},
 			{"DeregistrationRequest", nasTestpacket.GetDeregistrationRequest(1, 0, 4, suci)},
